@@ -3,7 +3,7 @@ from __future__ import annotations
 
 import warnings
 
-from .common import Suite, errname, merge
+from .common import Oracle, Suite, errname, merge
 
 GEN_UNITS = ["Handlers", "PyUnicode"]
 LEAN_TARGETS = ["PasslibVerif.Props.C09"]
@@ -174,11 +174,212 @@ def correspond(ctx):
     # Python int() semantics used by the model
     for s in ["0", "12", " 12 ", "\t12\n", "1_0", "1__0", "_1", "1_", "+5", "-5", "- 5", "٣٤", "１２", "1٣", "", " ", "12x", "0x10", "1e3", "1.0", "٣_٤", "+-1", "0012", "​12", "\x1f12", "\xa012"] + ["".join(rng.choice("0123456789_ +-٣x") for _ in range(rng.randrange(1, 6))) for _ in range(400)]:
         s_int.add(f"rounds int {','.join(str(ord(c)) for c in s) or '-'}", lambda s=s: str(int(s)), "int()")
-    return merge(s_r, s_iso, s_int)
+    o_set = Oracle(ctx, "settings-honoured")
+    settings_oracle(ctx, o_set)
+    return merge(s_r, s_iso, s_int, o_set)
+
+
+def settings_oracle(ctx, o, first_only=False):
+    """the property on the real code for the settings other than the rounds window logic: a derived hasher's hashes carry exactly the configured
+    salt size / ident / variant / version / block size / parallelism / algs / marker / truncation policy; values beyond the hard limits are refused,
+    or clamped under relaxed=True; chains of using() behave like one call with the last value of each setting; parents stay as they were."""
+    warnings.simplefilter("ignore")
+    from passlib import exc, registry
+
+    rng = ctx.rng
+    fails = []
+
+    def chk(tag, ok, inp, observed=None, expected=None):
+        o.check(tag, ok, inp, observed, expected)
+        if not ok:
+            fails.append({"input": inp, "observed": observed, "expected": expected})
+
+    def parsed(h, hs):
+        t = getattr(h, "wrapped", h)
+        return t.from_string(h._unwrap_hash(hs) if hasattr(h, "_unwrap_hash") else hs)
+
+    def cheap(h):
+        kw = {}
+        if "rounds" in (h.setting_kwds or ()):
+            kw["rounds"] = max(h.min_rounds, 1) | (1 if "bsdi" in h.name else 0)
+            if h.name == "sun_md5_crypt":
+                kw["rounds"] = 0
+        if h.name == "scrypt":
+            kw.update(rounds=1, block_size=1, parallelism=1)
+        return kw
+
+    names = [n for n in registry.list_crypt_handlers() if n not in ("argon2", "django_argon2")]
+    # ---- salt_size
+    for name in sorted(names):
+        h = registry.get_crypt_handler(name)
+        if "salt_size" not in (h.setting_kwds or ()) or h.min_salt_size == h.max_salt_size:
+            continue
+        lo, hi = h.min_salt_size, h.max_salt_size
+        before = snapshot(getattr(h, "wrapped", h)) if not hasattr(h, "wrapped") else None
+        probes = sorted({lo, lo + 1, min(hi or lo + 40, lo + 7), (hi or lo + 40)})
+        for k in probes:
+            inp = {"op": "using", "hasher": name, "kwds": {"salt_size": k}}
+            try:
+                sub = h.using(salt_size=k, **cheap(h))
+                got = len(parsed(sub, sub.hash("pw")).salt)
+                chk(name + ":salt_size", got == k, inp, got, k)
+                chain = h.using(salt_size=probes[0], **cheap(h)).using(salt_size=k)
+                chk(name + ":salt_size-chain", len(parsed(chain, chain.hash("pw")).salt) == k, dict(inp, chain=True), "chained value ignored", k)
+            except Exception as e:  # noqa: BLE001
+                chk(name + ":salt_size", False, inp, errname(e) + ": " + str(e)[:80], k)
+        for k, clamp in ((lo - 1, lo), ((hi + 1) if hi else None, hi)):
+            if k is None or k < 0:
+                continue
+            inp = {"op": "using", "hasher": name, "kwds": {"salt_size": k}}
+            try:
+                h.using(salt_size=k)
+                chk(name + ":salt_size-strict", False, inp, "accepted", "ValueError")
+            except ValueError:
+                chk(name + ":salt_size-strict", True, inp)
+            try:
+                sub = h.using(salt_size=k, relaxed=True, **cheap(h))
+                chk(name + ":salt_size-relaxed", len(parsed(sub, sub.hash("pw")).salt) == clamp, dict(inp, relaxed=True), "not clamped", clamp)
+            except Exception as e:  # noqa: BLE001
+                chk(name + ":salt_size-relaxed", False, dict(inp, relaxed=True), errname(e), f"clamped to {clamp}")
+        if before is not None:
+            chk(name + ":parent-untouched", snapshot(h) == before, {"op": "isolation", "hasher": name}, "parent changed", "unchanged")
+        if fails and first_only:
+            return fails
+    # ---- ident
+    for name in sorted(names):
+        h = registry.get_crypt_handler(name)
+        t = getattr(h, "wrapped", h)
+        if "ident" not in (h.setting_kwds or ()) or not getattr(t, "ident_values", None) or name == "bcrypt_sha256":
+            continue
+        for ident in t.ident_values:
+            if "2x" in ident:
+                continue
+            inp = {"op": "using", "hasher": name, "kwds": {"ident": ident}}
+            try:
+                sub = h.using(ident=ident, **cheap(h))
+                chk(name + ":ident", parsed(sub, sub.hash("pw")).ident == ident, inp, "other ident", ident)
+                chain = h.using(ident=t.ident_values[0], **cheap(h)).using(ident=ident)
+                chk(name + ":ident-chain", parsed(chain, chain.hash("pw")).ident == ident, dict(inp, chain=True), "chained value ignored", ident)
+            except Exception as e:  # noqa: BLE001
+                chk(name + ":ident", False, inp, errname(e) + ": " + str(e)[:80], ident)
+        for alias, ident in (getattr(t, "ident_aliases", None) or {}).items():
+            if "2x" in ident:
+                continue
+            try:
+                sub = h.using(ident=alias, **cheap(h))
+                chk(name + ":ident-alias", parsed(sub, sub.hash("pw")).ident == ident, {"op": "using", "hasher": name, "kwds": {"ident": alias}}, "other ident", ident)
+            except Exception as e:  # noqa: BLE001
+                chk(name + ":ident-alias", False, {"op": "using", "hasher": name, "kwds": {"ident": alias}}, errname(e), ident)
+        try:
+            h.using(ident="$nosuch$")
+            chk(name + ":ident-unknown", False, {"op": "using", "hasher": name, "kwds": {"ident": "$nosuch$"}}, "accepted", "ValueError")
+        except ValueError:
+            chk(name + ":ident-unknown", True, {"op": "using", "hasher": name})
+    # ---- format specific settings
+    from passlib.hash import bcrypt_sha256, fshp, scram, scrypt, unix_disabled
+
+    for v, want in ((0, 0), (1, 1), (2, 2), (3, 3), ("0", 0), ("sha1", 0), ("sha256", 1), ("sha512", 3), (b"sha384", 2)):
+        for parent in (fshp, fshp.using(variant=3), fshp.using(variant=1).using(rounds=7)):
+            inp = {"op": "fshp-variant", "variant": repr(v), "parent_variant": parent.default_variant}
+            try:
+                sub = parent.using(variant=v, rounds=2)
+                chk("fshp:variant", fshp.from_string(sub.hash("pw")).variant == want, inp, fshp.from_string(sub.hash("pw")).variant, want)
+            except Exception as e:  # noqa: BLE001
+                chk("fshp:variant", False, inp, errname(e), want)
+    for bad in (4, -1, "sha999", 1.5):
+        try:
+            fshp.using(variant=bad)
+            chk("fshp:variant-invalid", False, {"op": "fshp-variant", "variant": repr(bad)}, "accepted", "ValueError/TypeError")
+        except (ValueError, TypeError):
+            chk("fshp:variant-invalid", True, {"op": "fshp-variant"})
+    for key, good, lows in (("block_size", [1, 2, 8], [0, -3, "0"]), ("parallelism", [1, 2, 4], [0, -1, "0"])):
+        for ident in ("$scrypt$", "$7$"):
+            for g in good:
+                inp = {"op": "scrypt", "kwds": {key: g, "ident": ident}}
+                try:
+                    sub = scrypt.using(**{key: g, "rounds": 1, "ident": ident, **({"block_size": 1} if key != "block_size" else {}), **({"parallelism": 1} if key != "parallelism" else {})})
+                    chk("scrypt:" + key, getattr(scrypt.from_string(sub.hash("pw")), key) == g, inp, "other value", g)
+                    chain = scrypt.using(**{key: good[0]}).using(**{key: g, "rounds": 1})
+                    chk("scrypt:" + key + "-chain", getattr(chain, key) == g, dict(inp, chain=True), getattr(chain, key), g)
+                except Exception as e:  # noqa: BLE001
+                    chk("scrypt:" + key, False, inp, errname(e) + ": " + str(e)[:80], g)
+            for low in lows:
+                inp = {"op": "scrypt", "kwds": {key: low, "ident": ident}}
+                try:
+                    scrypt.using(**{key: low, "ident": ident})
+                    chk("scrypt:" + key + "-strict", False, inp, "accepted", "ValueError")
+                except ValueError:
+                    chk("scrypt:" + key + "-strict", True, inp)
+                try:
+                    sub = scrypt.using(**{key: low, "ident": ident, "relaxed": True, "rounds": 1})
+                    chk("scrypt:" + key + "-relaxed", getattr(sub, key) == 1, dict(inp, relaxed=True), getattr(sub, key), 1)
+                except Exception as e:  # noqa: BLE001
+                    chk("scrypt:" + key + "-relaxed", False, dict(inp, relaxed=True), errname(e) + ": " + str(e)[:80], "clamped to 1")
+    for ver, idents in ((1, ("2a", "2b")), (2, ("2b",))):
+        for ident in idents:
+            try:
+                sub = bcrypt_sha256.using(version=ver, ident=ident, rounds=4)
+                p = bcrypt_sha256.from_string(sub.hash("pw"))
+                chk("bcrypt_sha256:version", p.version == ver and p.ident.strip("$") == ident, {"op": "bcrypt_sha256", "version": ver, "ident": ident}, (p.version, p.ident), (ver, ident))
+            except Exception as e:  # noqa: BLE001
+                chk("bcrypt_sha256:version", False, {"op": "bcrypt_sha256", "version": ver, "ident": ident}, errname(e), "accepted")
+    for bad in (0, 3, "x"):
+        try:
+            bcrypt_sha256.using(version=bad)
+            chk("bcrypt_sha256:version-invalid", False, {"op": "bcrypt_sha256", "version": repr(bad)}, "accepted", "ValueError")
+        except (ValueError, TypeError):
+            chk("bcrypt_sha256:version-invalid", True, {"op": "bcrypt_sha256"})
+    for algs in ("sha-1", "sha-1,sha-256", ["sha-512", "sha-1"], "sha-1,md5"):
+        try:
+            sub = scram.using(algs=algs, rounds=2)
+            want = sorted(algs.split(",") if isinstance(algs, str) else algs)
+            chk("scram:algs", sorted(scram.from_string(sub.hash("pw")).algs) == want, {"op": "scram-algs", "algs": repr(algs)}, scram.from_string(sub.hash("pw")).algs, want)
+        except Exception as e:  # noqa: BLE001
+            chk("scram:algs", False, {"op": "scram-algs", "algs": repr(algs)}, errname(e), "accepted")
+    try:
+        scram.using(algs="sha-256")
+        chk("scram:algs-without-sha1", False, {"op": "scram-algs", "algs": "sha-256"}, "accepted", "ValueError (sha-1 is mandatory)")
+    except ValueError:
+        chk("scram:algs-without-sha1", True, {"op": "scram-algs"})
+    for marker in ("!", "*", "!locked"):
+        sub = unix_disabled.using(marker=marker)
+        chk("unix_disabled:marker", sub.hash("pw") == marker and unix_disabled.hash("pw") == unix_disabled.default_marker, {"op": "marker", "marker": marker}, sub.hash("pw"), marker)
+    for name in ("des_crypt", "bcrypt", "crypt16", "lmhash", "django_des_crypt"):
+        h = registry.get_crypt_handler(name)
+        n = getattr(h, "wrapped", h).truncate_size
+        for te in (True, False, "true", "false", "1", "0"):
+            want_raise = te in (True, "true", "1")
+            sub = h.using(truncate_error=te, **({"rounds": 4} if name == "bcrypt" else {}))
+            try:
+                sub.hash("a" * (n + 1))
+                raised = False
+            except exc.PasswordTruncateError:
+                raised = True
+            chk(name + ":truncate_error", raised == want_raise, {"op": "truncate_error", "hasher": name, "value": repr(te)}, raised, want_raise)
+    # ---- rounds variation on a chained hasher stays inside the CHILD's window
+    for name in ("pbkdf2_sha256", "sha256_crypt", "sha1_crypt"):
+        h = registry.get_crypt_handler(name)
+        lo = h.min_rounds
+        for vary in (0.5, 400, "30%"):
+            parent = h.using(min_rounds=lo, max_rounds=lo + 2000, default_rounds=lo + 1000, vary_rounds=vary)
+            child = parent.using(min_rounds=lo + 900, max_rounds=lo + 1100)
+            rs = {child(use_defaults=True).rounds for _ in range(60)}
+            inp = {"op": "chain-vary", "hasher": name, "vary_rounds": vary, "parent": [lo, lo + 2000, lo + 1000], "child": [lo + 900, lo + 1100]}
+            chk(name + ":chain-vary-window", all(lo + 900 <= r <= lo + 1100 for r in rs), inp, [min(rs), max(rs)], "inside the child's window")
+            prs = {parent(use_defaults=True).rounds for _ in range(60)}
+            chk(name + ":chain-vary-parent", all(lo <= r <= lo + 2000 for r in prs) and max(prs) - min(prs) > 50, inp, [min(prs), max(prs)], "the parent still varies over its own window")
+    return fails
 
 
 # ------------------------------------------------------------------------------------------
 def search(ctx, broken, seeds):
+    fails = settings_oracle(ctx, Oracle(ctx, "search"), first_only=True)
+    if fails:
+        return fails[0]
+    return search_rounds(ctx, broken, seeds)
+
+
+def search_rounds(ctx, broken, seeds):
     """the property's statement on the real code: derived hasher's hashes carry the configured cost, stay within the window and the
     hard limits, its own update check does not flag them; strict/relaxed behaviour at the limits; parents untouched."""
     warnings.simplefilter("ignore")
